@@ -27,6 +27,7 @@ structure WorldT where
   ctlTls : Bool := false          -- ... and it completed its handshake: the control channel is protected
   dataTls : Bool := false         -- the data socket of the current operation is an ssl_socket
   hsOks : List Bool := []         -- outcomes of the successive TLS handshakes (control and data)
+  peerAnswersCloseNotify : Bool := true   -- does the server answer the close-notify of the control channel?
   trace : List EvT := []
   deriving Repr
 
@@ -47,7 +48,10 @@ def emitT (e : EvT) : MT Unit := modifyT fun w => { w with trace := w.trace ++ [
 /-- run a program of the plain model; its events are recorded with the current state of the control channel -/
 def lift {α} (m : M α) : MT α := fun w =>
   let (r, b) := m { w.base with trace := [] }
-  (r, { w with base := { b with trace := w.base.trace }, trace := w.trace ++ b.trace.map (EvT.ev w.ctlTls) })
+  let w' : WorldT := { w with base := { b with trace := w.base.trace }, trace := w.trace ++ b.trace.map (EvT.ev w.ctlTls) }
+  -- the 421 branch of control_connection::recv closes the connection through the SSL layer as well: when the peer
+  -- has gone without answering the close-notify, the TLS shutdown reports an error - after the socket was closed
+  if w.ctlSsl && w.base.connected && !b.connected && !w.peerAnswersCloseNotify then (.throw, w') else (r, w')
 
 def scopedT {α} (body : MT α) (cleanup : MT Unit) : MT α := fun w =>
   match body w with
@@ -129,9 +133,10 @@ def connectT (host : Bytes) (port : Nat) (cred : Option (Bytes × Bytes)) : MT R
 def ctlCloseT : MT Unit := do
   let w ← getT
   if w.ctlSsl then emitT .ctlTlsShutdown
-  lift ctlClose
-  -- a TLS shutdown on an engine that never completed its handshake reports an error - after the socket was closed
-  if w.ctlSsl && !w.ctlTls then throwT
+  fun w' => ((lift ctlClose) { w' with peerAnswersCloseNotify := true }).map id (fun x => { x with peerAnswersCloseNotify := w'.peerAnswersCloseNotify })
+  -- a TLS shutdown on an engine that never completed its handshake, or whose peer has gone without answering the
+  -- close-notify, reports an error - after the socket was closed
+  if w.ctlSsl && (!w.ctlTls || !w.peerAnswersCloseNotify) then throwT
 
 def logoutT : MT Reply := do
   let r ← lift (simple "REIN" none)
